@@ -429,6 +429,8 @@ void gsl_matrix_complex_change_basis_IUCMU(gsl_matrix_complex* U, gsl_matrix_com
 
 
 SU_vector SU_vector::UTransform(const SU_vector& v, gsl_complex scale) const{
+  if(v.dim!=dim)
+    throw std::runtime_error("SU_vector::UTransform(SU_vector): Non-matching dimensions");
   SQUIDS_THREAD_LOCAL math_detail::gsl_matrix_complex_holder mv;
   SQUIDS_THREAD_LOCAL math_detail::gsl_matrix_complex_holder mu;
   mv.reset(dim,dim);
@@ -449,6 +451,8 @@ SU_vector SU_vector::UTransform(const SU_vector& v, gsl_complex scale) const{
 }
 
 SU_vector SU_vector::UTransform(gsl_matrix_complex* em) const{
+  if(em->size1!=dim or em->size2!=dim)
+    throw std::runtime_error("SU_vector::UTransform(gsl_matrix_complex): matrix dimensions and SU_vector dimensions do not match.");
   SQUIDS_THREAD_LOCAL math_detail::gsl_matrix_complex_holder mu;
   mu.reset(dim,dim);
   GetGSLMatrix(mu);
@@ -457,6 +461,8 @@ SU_vector SU_vector::UTransform(gsl_matrix_complex* em) const{
 }
 
 SU_vector SU_vector::UDaggerTransform(gsl_matrix_complex* em) const{
+  if(em->size1!=dim or em->size2!=dim)
+    throw std::runtime_error("SU_vector::UDaggerTransform(gsl_matrix_complex): matrix dimensions and SU_vector dimensions do not match.");
   SQUIDS_THREAD_LOCAL math_detail::gsl_matrix_complex_holder mu;
   mu.reset(dim,dim);
   GetGSLMatrix(mu);
